@@ -10,7 +10,7 @@ FUNCS_NAMED = [("fn", "1"), ("fn", "10"), ("fn1", "0")]   # fn#10 has no local v
 FUNCS_DEFAULT = [("dfn", "1"), ("dfn1", "0"), ("dg", "2")]
 NARGS = 3
 VALKEYS = ["s0", "s1", "num", "none", "k3", "k6", "lst", "dct", "df", "arr", "k3b", "true", "flt", "part",
-           "part2", "arr6", "df6", "exc", "exc", "part3", "partm"]
+           "part2", "arr6", "df6", "exc", "exc", "part3", "partm", "partd"]
 OVERRIDES = [None, None, None, "ovr/shared", "ovr/other", "ovr/k#1"]  # (a key may contain the character that separates key and version)
 META_KEYS = ["log", "k2", ""]  # (the empty key is a key like any other)
 
@@ -35,6 +35,8 @@ def values():
         # a partition that inherits the entries of another one (its merge parent, stored through the same backend right
         # before it): as a value it is the overlay; apply_backend builds the real thing
         "partm": lambda: _partition({"a": 1, "z": "other", "b": 3, "c": [4]}),
+        # a partition staged on disk by the function (OnDiskPartition); its values equal values that other calls store
+        "partd": lambda: _on_disk({"a": 1, "z": "other", "s": "small-0", "k": "x" * 3000, "own": "staged only"}),
         # a recorded failure (stored like a value: calls that failed alike share the stored object)
         "exc": _failure(),
         # one value per call, never produced by any other call
@@ -52,6 +54,15 @@ def _partition(d):
     from twosigma.memento.partition import InMemoryPartition
 
     return InMemoryPartition(dict(d))
+
+
+def _on_disk(d):
+    from twosigma.memento.storage_filesystem import OnDiskPartition
+
+    p = OnDiskPartition()
+    for k, v in d.items():
+        p[k] = v
+    return p
 
 
 def val(vals, vk):
